@@ -414,7 +414,7 @@ def trees(ctx: Ctx) -> Iterator[Tuple[str, str]]:
             if regex is not None:
                 yield retree_wire.enc(regex), "corpus"
     yield from enumerated()
-    for i in range(ctx.n(1200, 15000)):
+    for i in range(ctx.n(900, 15000)):
         g = G(ctx.rng, clean=(i % 4 != 0))
         yield wire_of(g.regex()), ("random-clean" if g.clean else "random-any")
 
@@ -761,7 +761,8 @@ def _run(ctx: Ctx, with_model: bool) -> None:
     texts: List[Tuple[str, str, str]] = []  # (pattern, stream, wire of the generated tree)
     seen = set()
     for k, ((w, stream), got) in enumerate(zip(batch, impl_out)):
-        ctx.count(("tree", w), nontrivial=("65536" not in w and len(w) > 20) or True, stream="tree/" + stream)
+        # non-trivial: the rewriting changed the tree (or crashed on it)
+        ctx.count(("tree", w), nontrivial=not (got.startswith("ok") and got[3:] == w), stream="tree/" + stream)
         if got.startswith("ok"):
             ctx.hit("tree:changed" if got[3:] != w else "tree:unchanged")
         else:
